@@ -174,7 +174,7 @@ func ruleMatchesTrace(t *types.Trace, rule *config.RulesBasedSamplerRule, checkN
 					matched++
 					break span
 				}
-			} else if condition.Matches(value, exists) {
+			} else if (exists || condition.Operator == config.NotExists) && condition.Matches(value, exists) {
 				matched++
 				break span
 			}
@@ -216,7 +216,7 @@ func ruleMatchesSpanInTrace(trace *types.Trace, rule *config.RulesBasedSamplerRu
 			}
 
 			if condition.Matches != nil {
-				if !condition.Matches(value, exists) {
+				if (!exists && condition.Operator != config.NotExists) || !condition.Matches(value, exists) {
 					ruleMatched = false
 					if checkedOnlyRoot {
 						// if we only checked the root span and it didn't match,
